@@ -7,15 +7,20 @@ ID = "C06"
 LEAN_TARGETS = ["DVP.Properties.C06"]
 PROPERTY_FILES = ["DVP/Properties/C06.lean"]
 RULE = ("dense outputs of real runs of every method family (explicit, FSAL, adaptive, implicit, splitting, Richardson wrappers), both time "
-        "directions, single and continued calls, event-terminated and resumed, after faults; seeded queries inside the range, at recorded "
+        "directions, single and continued calls, event-terminated and resumed (also against the configured span), after faults; seeded queries inside the range, at recorded "
         "times, midway, scalar and array: the piece chosen by find_interval / find_interval_vec vs the Lean lookup model (bit-exact) and vs "
         "the piece whose interval contains the query; sol(t_k) vs y_k; end slopes of every piece vs the right-hand side at the recorded "
-        "states; interpolation error vs the closed-form solution against an O(h^4) bound. non-trivial = run with >= 4 pieces; distinct by (run, query)")
+        "states; interpolation error vs the closed-form solution against an O(h^4) bound; the integrators' end-slope cache replayed against "
+        "the Lean model DV.SlopeCache on call sequences with jumps, repeated starts and calls abandoned by a fault (also inside retries). non-trivial = run with >= 4 pieces; distinct by (run, query)")
 ASSUMPTIONS = ["O(h^4): error at midpoints <= h^4 max|y''''| / 384 x 8 + 20 x the largest error at the grid points (Peano kernel bound cited)"]
 
 
 def rhs(t, y):
     return np.array([y[1], -y[0]])
+
+
+class Injected(Exception):
+    """an injected fault (not a ValueError: the integrators catch those inside a step and retry the step)"""
 
 
 def exact(t0):
@@ -38,11 +43,162 @@ def ev_term(t, y, **kw):
 ev_term.is_terminal = True
 
 
+def pulse_rhs(t, y):
+    return np.array([y[1], -y[0] + 50.0 * math.exp(-((float(t) - 1.0) / 0.05) ** 2)])
+
+
+def fault_in_retry(ctx, rng):
+    """a right-hand side fault INSIDE A RETRY ATTEMPT (after the controller rejected an attempt of the same step), then resume:
+    the slope cache of the integrator has been overwritten by the rejected attempt while its time/state tags still name the
+    start of the step; every dense piece of the resumed run must still have the right-hand side as its end slopes"""
+    for name in (["RK45CKSolver", "DOPRI45"] if ctx.quick() else ["RK45CKSolver", "DOPRI45", "RK8713MSolver", "HeunEulerSolver"]):
+        cls = getattr(I, name)
+        for direction in (1, -1):
+            log = []
+            state = dict(n=0, at=None)
+
+            class L(cls):
+                def step(self, *a, **k):
+                    log.append(("step", state["n"]))
+                    return super().step(*a, **k)
+
+                def __call__(self, *a, **k):
+                    log.append(("call", state["n"]))
+                    return super().__call__(*a, **k)
+            L.__name__ = "L_" + name
+            sgn = float(direction)
+
+            def f(t, y):
+                state["n"] += 1
+                if state["at"] is not None and state["n"] == state["at"]:
+                    raise Injected("injected")
+                return sgn * pulse_rhs(sgn * t, y)        # the time-reversed problem for the backward run
+            span = (0.0, 2.0 * sgn)
+
+            def fresh():
+                o = de.OdeSystem(f, y0=np.array([1.0, 0.0]), t=span, dt=0.1, dense_output=True, rtol=1e-6, atol=1e-6)
+                o.set_method(L)
+                state["n"] = 0
+                return o
+            o = fresh()
+            log.clear()
+            o.integrate()
+            retries = [log[i][1] for i in range(1, len(log)) if log[i][0] == "step" and log[i - 1][0] == "step"]
+            ctx.count("fault-in-retry:%s:retry-attempts=%d" % (name, min(len(retries), 9)))
+            for r in retries[:(2 if ctx.quick() else 6)]:
+                at = r + rng.randint(1, 3)
+                state["at"] = at
+                o = fresh()
+                inp = dict(kind="dense", method=name, history="fault-in-retry", t0=0.0, tf=span[1], dt=0.1, fault_at_rhs_call=at)
+                try:
+                    o.integrate()
+                    faulted = False
+                except de.exception_types.FailedIntegration:
+                    faulted = True
+                state["at"] = None
+                try:
+                    o.integrate()
+                except Exception as e:
+                    ctx.oracle("run", False, inp, what="resumed run raised %r" % (e,))
+                    continue
+                worst = 0.0
+                for pc in o.sol.y_interpolants:
+                    worst = max(worst, float(np.max(np.abs(pc.m0 - f(float(pc.t0), pc.p0)))), float(np.max(np.abs(pc.m1 - f(float(pc.t1), pc.p1)))))
+                ctx.oracle("end-slopes-are-rhs", worst <= 1e-9, dict(inp, worst=worst, faulted=faulted), key="dense-stale-slope-after-fault-in-retry",
+                           what="after a fault inside a retry attempt and a resume, a piece's end slope differs from the right-hand side at its end state by %.2e" % worst)
+                t = np.array(o.t)
+                bad = [k for k in range(len(t)) if float(np.max(np.abs(o.sol(t[k]) - np.array(o.y)[k]))) > 0.0]
+                ctx.oracle("recorded-states-reproduced", not bad, dict(inp, n_bad=len(bad)), what="sol(t_k) differs from y_k at %d recorded times" % len(bad))
+                ctx.nontrivial((name, "fault-in-retry", direction, at))
+
+
+def slope_cache_block(ctx, rng):
+    """the end-slope cache of the Runge-Kutta integrators (reuse of final_rhs as the next step's start slope) against the Lean model
+    DV.SlopeCache: one integrator object driven through chained calls, jumps, repeated starts and calls abandoned by a right-hand-side
+    fault at a random evaluation (also inside retry attempts); observable: whether the right-hand side was evaluated at the start
+    point before the first attempt; property: the dense piece of every completed call has the right-hand side as its end slopes"""
+    lines, cases = [], []
+    names = ["RK45CKSolver", "DOPRI45", "RK4Solver", "HeunEulerSolver"] + ([] if ctx.quick() else ["RK8713MSolver", "MidpointSolver", "RK5Solver"])
+    for name in names:
+        cls = getattr(I, name)
+        for rep in range(3 if ctx.quick() else 20):
+            ev = []                      # ordered log: ("rhs", t, ybytes) / ("step",) / ("done", h, dT, dY)
+            st = dict(n=0, at=None)
+
+            def f(t, y):
+                st["n"] += 1
+                ev.append(("rhs", float(t), np.asarray(y, dtype=np.float64).tobytes()))
+                if st["at"] is not None and st["n"] == st["at"]:
+                    raise Injected("injected")
+                return pulse_rhs(t, y)
+
+            class L(cls):
+                def step(self, rhs_, t_, y_, c_, h_):
+                    ev.append(("step",))
+                    r = super().step(rhs_, t_, y_, c_, h_)
+                    ev.append(("done", float(h_), float(r[1][0]), np.array(r[1][1], dtype=np.float64).copy()))
+                    return r
+            L.__name__ = "L_" + name
+            integ = L((2,), dtype=np.float64, rtol=1e-6, atol=1e-6)
+            t = np.float64(rng.choice([0.0, 0.6, 0.85]))
+            y = np.array([1.0, 0.0]) + np.array([rng.uniform(-0.2, 0.2), rng.uniform(-0.2, 0.2)])
+            plan = [rng.choice(["chain", "chain", "jump", "same-start", "fault"]) for _ in range(rng.randint(4, 9))]
+            calls, flags = [], []
+            resume = None
+            for kind in ["chain"] + plan:
+                h = np.float64(rng.choice([0.05, 0.1, 0.3]))
+                if kind == "jump":
+                    y = y + np.array([rng.uniform(-0.1, 0.1), 0.0])
+                st["n"], st["at"] = 0, (rng.randint(1, 14) if kind == "fault" else None)
+                ev.clear()
+                done = True
+                try:
+                    new_dt, (dT, dY) = integ(f, t, y.copy(), {}, h)
+                except Injected:
+                    done = False
+                except Exception as e:
+                    ctx.oracle("run", False, dict(kind="slope-cache", method=name, call=kind), what="__call__ raised %r" % (e,))
+                    break
+                first_step = next((k for k, e_ in enumerate(ev) if e_[0] == "step"), len(ev))
+                evaluated_at_start = any(e_[0] == "rhs" and e_[1] == float(t) and e_[2] == y.tobytes() for e_ in ev[:first_step])
+                atts = [e_ for e_ in ev if e_[0] == "done"]
+                hs = ",".join(fbits(a[2]) for a in atts) or "-"
+                es = ",".join((y + a[3]).tobytes().hex() for a in atts) or "-"
+                calls.append("%s:%s:%s:%s:%s" % (fbits(float(t)), y.tobytes().hex(), "c" if done else "a", hs, es))
+                flags.append("0" if evaluated_at_start else "1")
+                ctx.count("slope-cache:%s:%s" % (kind, "completed" if done else "abandoned:%d-attempts" % min(len(atts), 3)))
+                if done:
+                    # the dense piece of the completed step
+                    pc = integ.dense_output()[1]
+                    d0 = float(np.max(np.abs(pc.m0 - pulse_rhs(float(pc.t0), pc.p0))))
+                    d1 = float(np.max(np.abs(pc.m1 - pulse_rhs(float(pc.t1), pc.p1))))
+                    ctx.oracle("end-slopes-are-rhs", max(d0, d1) <= 1e-12 * (1 + float(np.max(np.abs(pc.m1)))),
+                               dict(kind="slope-cache", method=name, plan=["chain"] + plan, call=kind, t=float(t), start_defect=d0, end_defect=d1),
+                               key="end-slopes-are-rhs", what="the dense piece of a completed call has end slopes off the right-hand side by %.2e / %.2e" % (d0, d1))
+                    if kind in ("chain", "jump", "fault"):
+                        t_keep, y_keep = t, y.copy()
+                        t, y = np.float64(t + dT), y + dY
+                    # "same-start": stay where we are, next call repeats the start
+                    if kind == "same-start":
+                        pass
+                # an abandoned call leaves (t, y) as they are: the next call is the resume
+            if calls:
+                lines.append("slopecache " + ";".join(calls))
+                cases.append((name, ["chain"] + plan, ",".join(flags)))
+                ctx.nontrivial(("slope-cache", name, tuple(plan)))
+    outs = ctx.driver(lines)
+    for (name, plan, flags), o in zip(cases, outs):
+        ctx.corr("slope-cache-reuse", o == flags, dict(kind="slope-cache", method=name, plan=plan, impl_reused=flags, model_reused=o))
+    if lines:
+        ctx.sample(dict(kind="slope-cache", op=lines[0][:300], model=outs[0]))
+
+
 def run(ctx):
     rng = ctx.rng
+    slope_cache_block(ctx, rng)
     lines, pend = [], []
     for (name, cls) in methods(ctx):
-        for history in ("single", "continued", "event-resumed", "fault-resumed"):
+        for history in ("single", "continued", "event-resumed", "fault-resumed", "against-span-event"):
             for direction in (1, -1):
                 if ctx.quick() and rng.random() < 0.45:
                     continue
@@ -57,9 +213,11 @@ def run(ctx):
                 def f(t, y, fault=fault):
                     fault["n"] += 1
                     if fault["at"] is not None and fault["n"] >= fault["at"]:
-                        raise ValueError("injected")
+                        raise Injected("injected")
                     return rhs(t, y)
-                o = de.OdeSystem(f, y0=np.array([1.0, 0.0]), t=(t0, tf), dt=dt, dense_output=True, rtol=1e-8, atol=1e-10)
+                # (in the history "against-span-event" the system is configured for the opposite span and the calls name the target)
+                span_cfg = (t0, tf) if history != "against-span-event" else (t0, 2 * t0 - tf)
+                o = de.OdeSystem(f, y0=np.array([1.0, 0.0]), t=span_cfg, dt=dt, dense_output=True, rtol=1e-8, atol=1e-10)
                 o.set_method(cls)
                 try:
                     if history == "single":
@@ -73,6 +231,9 @@ def run(ctx):
                     elif history == "event-resumed":
                         o.integrate(events=[ev_term])
                         o.integrate()
+                    elif history == "against-span-event":
+                        o.integrate(tf, events=[ev_term])
+                        o.integrate(tf)
                     else:
                         fault["at"] = fault["n"] + rng.randint(8, 40)
                         try:
@@ -91,7 +252,7 @@ def run(ctx):
                 st = [float(x) for x in sol.t_eval]
                 pieces = sol.y_interpolants
                 sorted_ok = all(b > a for a, b in zip(st, st[1:]))
-                key_hist = dict(single=None, continued=None, **{"event-resumed": "terminal-event-dense-unsorted", "fault-resumed": None})[history]
+                key_hist = dict(single=None, continued=None, **{"event-resumed": "terminal-event-dense-unsorted", "fault-resumed": None, "against-span-event": None})[history]
                 ctx.oracle("dense-times-increasing", sorted_ok, dict(inp, t_eval_head=st[:4]), key=key_hist or "dense-times-increasing", what="sol.t_eval is not strictly increasing")
                 if not sorted_ok:
                     continue
@@ -133,6 +294,7 @@ def run(ctx):
                 ctx.count("method:" + name)
                 ctx.count("history:%s:%s" % (history, "bwd" if backward else "fwd"))
                 ctx.sample(dict(inp, pieces=len(pieces)), limit=4)
+    fault_in_retry(ctx, rng)
     outs = ctx.driver(lines)
     for (inp, qv, idx, vi), o in zip(pend, outs):
         ctx.corr("dense-lookup", o == "%d %d" % (idx, vi), dict(inp, query=qv, impl=[idx, vi], model=o))
